@@ -46,15 +46,18 @@ def oracle_vector(case, rec):
         kw['phase_step'] = step
     if 'edge' in case:
         kw['phase_edge'] = edge
+    lay = case.get('layout', 'C')
     if mask is not None:
         mask = np.asarray(mask, dtype=bool)
-        kw['mask'] = mask.copy()
+        kw['mask'] = gens.relayout(mask.copy(), lay)
     # "good cycles requested" = any truthy flag: the literal True, a numpy boolean (e.g. an element of a boolean options
     # array), or 1
     flag = [True, np.bool_(True), 1, True][(p2.shape[0] + (0 if mask is None else 1)) % 4]
     rec.cls('return_good=%s' % type(flag).__name__)
     try:
-        out = np.asarray(emd.cycles.get_cycle_vector(p.copy(), return_good=flag, **kw))
+        out = np.asarray(emd.cycles.get_cycle_vector(gens.relayout(p.copy(), lay), return_good=flag, **kw))
+        if mask is not None and not np.array_equal(np.asarray(kw['mask']), mask):
+            raise Violation('C13/get_cycle_vector/mask-modified', 'the validity mask passed in was changed by the call')
     except Exception as e:
         raise Violation('C13/get_cycle_vector/raises/%s%s' % (type(e).__name__, '/mask' if mask is not None else ''),
                         repr(e))
@@ -84,6 +87,7 @@ def oracle_vector(case, rec):
                                 'segment [%d,%d) %r not labelled' % (a, b, p2[a:b, c].tolist()[:12]))
         # order preserving renumbering (given check_column: consecutive labels in temporal order)
     rec.cls('mask' if mask is not None else 'nomask')
+    rec.cls('layout=' + lay)
     return n_acc >= 1 and n_rej >= 1
 
 
@@ -175,7 +179,8 @@ def mask_case(draw):
     n = p.shape[0]
     kind = draw(st.sampled_from(['none', 'random', 'block', 'random']))
     # a zero tolerance (no cycle can qualify) and a zero wrap threshold (every change of phase is a wrap) are valid values
-    case = {'p': p, 'edge': draw(st.sampled_from(EDGES + [0, 0.0])), 'step': draw(st.sampled_from(STEPS + [0, 0.0]))}
+    case = {'p': p, 'edge': draw(st.sampled_from(EDGES + [0, 0.0])), 'step': draw(st.sampled_from(STEPS + [0, 0.0])),
+            'layout': draw(st.sampled_from(['C', 'C', 'F', 'strided', 'readonly']))}
     if kind == 'random':
         k = draw(st.integers(0, 2**32 - 1))
         dens = draw(st.sampled_from([0.5, 0.9, 0.98]))
